@@ -943,3 +943,62 @@ def k9py(ctx):
                   'MAX_RECURSION_DEPTH that every engine operation handles raises Python\'s '
                   'RecursionError here' % qual, mod.loc(fn))
     ctx.require(n >= 1, 'no self-recursive function found in ops.py (prefix_errors.helper is one)')
+
+
+# ---------------------------------------------------------------------------------------------
+@rule('F11', floor=2, title='n-ary broadcasting is two unconditional passes of pairwise broadcasting against the running result')
+def f11(ctx):
+    """Domain fact: folding `tree_broadcast_common(running, rest_i)` over the operands once leaves
+    the operands that were broadcast early ignorant of refinements contributed by later operands;
+    a second pass over *every* operand fixes that (the result of pass one is a common suffix of
+    all of them, so pass two changes no structure but brings each operand up to it).  Skipping an
+    operand in the second pass by any cheaper test (leaf count, identity) is wrong: a refinement
+    can keep the leaf count (a one-leaf subtree, a None next to a split)."""
+    pkg = ctx.py()
+    mod = pkg.mod('optree.ops')
+    fn = mod.func('_tree_broadcast_common')
+    rests = fn.args.vararg.arg if fn.args.vararg else None
+    ctx.require(rests is not None, '_tree_broadcast_common has no *rests parameter')
+    parents = {}
+    for n in ast.walk(fn):
+        for c in ast.iter_child_nodes(n):
+            parents[id(c)] = n
+    passes = 0
+    conditional = []
+    bad_running = []
+    for loop in [n for n in walk(fn) if isinstance(n, ast.For) and rests in names_in(n.iter)]:
+        calls = [c for c in calls_under(loop) if call_name(c) == 'tree_broadcast_common']
+        if not calls:
+            continue
+        for c in calls:
+            p = parents.get(id(c))
+            while p is not None and p is not loop:
+                if isinstance(p, (ast.If, ast.IfExp, ast.Try, ast.While)):
+                    conditional.append(c)
+                p = parents.get(id(p))
+            # running result: first argument is re-assigned from the call's first result
+            asg = parents.get(id(c))
+            ok = isinstance(asg, ast.Assign) and isinstance(asg.targets[0], ast.Tuple) and \
+                len(asg.targets[0].elts) == 2 and c.args and \
+                src(asg.targets[0].elts[0]) == src(c.args[0])
+            if not ok:
+                bad_running.append(c)
+        mult = 1
+        p = parents.get(id(loop))
+        while p is not None and p is not fn:
+            if isinstance(p, ast.For):
+                m = pmatch(p.iter, 'range(??k)')
+                k = p.iter.args[0].value if m is not None and isinstance(p.iter.args[0], ast.Constant) else 1
+                mult *= k if isinstance(k, int) else 1
+            p = parents.get(id(p))
+        passes += mult
+    ctx.check('_tree_broadcast_common/two-passes', passes >= 2,
+              'every operand is broadcast against the running result in %d passes' % passes,
+              'the operands are broadcast against the running result in %d pass(es) only: operands '
+              'broadcast early miss the refinements of later operands' % passes, mod.loc(fn))
+    ctx.check('_tree_broadcast_common/unconditional', not conditional and not bad_running,
+              'no operand is skipped in any pass and the running result is threaded through',
+              'a pairwise broadcast is %s: an operand whose structure must still change can be left '
+              'behind (tree_broadcast_map then raises on compatible operands)'
+              % ('conditional (%s)' % mod.loc(conditional[0]) if conditional else
+                 'not threaded through the running result'), mod.loc(fn))
